@@ -44,6 +44,9 @@ pub fn run_socket_worker(
     validator: ConnectionValidator,
     priv_droppers: Vec<PrivilegeDropper>,
 ) -> anyhow::Result<()> {
+    #[cfg(feature = "verif")]
+    aquatic_common::verif_fault!("udp.socket.start");
+
     #[cfg(all(target_os = "linux", feature = "io-uring"))]
     if config.network.use_io_uring {
         use anyhow::Context;
